@@ -237,7 +237,7 @@ Fixpoint elems (s : it) : list val :=
   | IRev i => rev (elems i)
   | IEnum i k => map (fun p => VPair (VZ (Z.of_nat (fst p))) (snd p))
                      (combine (seq k (length (elems i))) (elems i))
-  | IPad la i v n => firstn n ((if la then elems i else []) ++ repeat v n)
+  | IPad la i v n => let e := if la then elems i else [] in firstn n e ++ repeat v (n - length e)
   | ITrust i _ => elems i
   | ILin st sp index len => map (fun k => VZ (st + sp * Z.of_nat k)) (seq index (len - index))
   | IBox i => elems i
